@@ -80,6 +80,10 @@ impl AuthWalStorage {
                 .map_err(|e| AuthError::DatabaseError(format!("seek auth wal failed: {e}")))?;
             AuthWalHeader::read_and_validate_header(&mut file)
                 .map_err(|e| AuthError::DatabaseError(format!("auth wal header invalid: {e}")))?;
+            // Cut off a torn tail frame (crash in the middle of an append): replay stops at
+            // it, so every record appended behind it would be lost on the next start.
+            Self::truncate_torn_tail(&mut file)
+                .map_err(|e| AuthError::DatabaseError(format!("truncate auth wal failed: {e}")))?;
         }
         file.seek(SeekFrom::End(0))
             .map_err(|e| AuthError::DatabaseError(format!("seek auth wal end failed: {e}")))?;
@@ -115,6 +119,26 @@ impl AuthWalStorage {
                 Self::new(tmp)
             }
         }
+    }
+
+    /// Truncates the file at the first frame replay cannot step over (invalid length or
+    /// fewer bytes than announced). Expects the cursor right behind the header.
+    fn truncate_torn_tail(file: &mut File) -> std::io::Result<()> {
+        let file_len = file.metadata()?.len();
+        let mut pos = file.stream_position()?;
+        while pos < file_len {
+            let mut len_buf = [0u8; 4];
+            let len = match file.read_exact(&mut len_buf) {
+                Ok(_) => u32::from_le_bytes(len_buf) as u64,
+                Err(_) => 0,
+            };
+            if len == 0 || len > MAX_FRAME_SIZE as u64 || pos + 8 + len > file_len {
+                warn!(target: "sneldb::auth", pos, file_len, "auth wal has a torn tail; truncating");
+                return file.set_len(pos);
+            }
+            pos = file.seek(SeekFrom::Start(pos + 8 + len))?;
+        }
+        Ok(())
     }
 
     fn encode_record(user: &User) -> Result<Vec<u8>, AuthError> {
